@@ -244,17 +244,39 @@ func freshWriteBatches(c *Ctx, rule string, pkgs []string) {
 			}
 			n++
 			bt := rg.TermIn(in, cc.Args[2])
-			fresh := false
-			for _, alt := range bt.Alts() {
-				a := alt.Strip()
-				if a.Op == "call" && a.Fn != nil && (a.Fn.Name() == "NewWriteBatch" || a.Fn.Name() == "WriteBatchFrom") {
-					if v, ok := a.V.(ssa.Instruction); ok && len(rg.sites[v.Parent()]) > 0 {
-						fresh = true
+			isFresh := func(bt *Term, rg *Region) bool {
+				fresh := false
+				for _, alt := range bt.Alts() {
+					a := alt.Strip()
+					if a.Op == "call" && a.Fn != nil && (a.Fn.Name() == "NewWriteBatch" || a.Fn.Name() == "WriteBatchFrom") {
+						if v, ok := a.V.(ssa.Instruction); ok && len(rg.sites[v.Parent()]) > 0 {
+							fresh = true
+							continue
+						}
+					}
+					return false
+				}
+				return fresh
+			}
+			fresh := isFresh(bt, rg)
+			// a helper that writes the batch it is handed (`commit(opts, batch)`): judged at its call sites
+			if par, isPar := cc.Args[2].(*ssa.Parameter); !fresh && isPar && par.Parent() == fn {
+				idx := paramIndex(par)
+				sites, okAll := 0, true
+				for _, g := range p.ModFuncs {
+					if !p.Production(g) {
 						continue
 					}
+					for _, call := range callsIn(g, func(k *ssa.CallCommon) bool { return k.StaticCallee() == fn }) {
+						sites++
+						rg2 := p.RegionOf(outermost(g), 2)
+						if k := callCommon(call); idx >= len(k.Args) || !isFresh(rg2.TermIn(call, k.Args[idx]), rg2) {
+							okAll = false
+							bt = rg2.TermIn(call, k.Args[idx])
+						}
+					}
 				}
-				fresh = false
-				break
+				fresh = sites > 0 && okAll
 			}
 			c.Check(fresh, rule, funcName(fn)+":batch", in.Pos(), "the batch written was created in this call", "the batch handed to db.Write is "+bt.String()+", not one created in this call: a batch that outlives the call keeps the operations of a failed write and replays them with the next one")
 		})
